@@ -34,41 +34,66 @@ macro_rules! registry {
 
 registry!(c01, c02, c03, c04, c05, c06, c07, c08, c09, c10, c11, c12, c13, c14, c15, c16, c17, c18, c19);
 
-/// Coverage-guided entry used by the libFuzzer targets in /verif/fuzz: `data[0]` picks the
-/// dimension / sub-generator, the remaining bytes are the random stream of that property's
-/// proptest strategy.  Returns (replay label, violation, case) for the first unknown violation.
+/// Coverage-guided entry used by the libFuzzer targets in /verif/fuzz: the bytes are decoded by
+/// `gen::bytes` into the same case types (same value domains) the proptest strategies generate, the
+/// property's own oracle runs on the case.  Returns (replay label, violation, case) for the first
+/// violation that is not a known finding.
 pub fn fuzz_bytes(id: &str, data: &[u8], ctx: &mut Ctx) -> Option<(String, Violation, Value)> {
-    if data.len() < 2 {
+    use crate::gen::bytes::{ops, start, Cur};
+    use crate::gen::points::EXACT_FAMILIES;
+    if data.len() < 4 {
         return None;
     }
-    let sel = data[0] as usize;
-    let dim = 2 + sel % 4;
-    let rest = &data[1..];
+    let mut c = Cur::new(data);
+    let dim = 2 + (c.u8() as usize) % 4;
+    let robust = c.bool();
+    let salt = c.u8() as u64; // a few distinct UUID families are enough
+    let nmax = |d: usize, a: [usize; 4]| a[d - 2];
     macro_rules! go {
-        ($label:expr, $strat:expr, $exec:path) => {{
+        ($label:expr, $case:expr, $exec:path) => {{
             let label: String = $label;
-            ctx.run_bytes(&label, $strat, rest, &|c, l| $exec(c, l)).map(|(v, c)| (label.clone(), v, c))
+            let case = $case;
+            ctx.run_one(&label, &case, &|c, l| $exec(c, l)).map(|v| (label.clone(), v, serde_json::to_value(&case).unwrap_or(Value::Null)))
         }};
     }
     match id {
-        "C02" => go!(format!("insertion_history_d{dim}"), c02::strategy(dim, 10, false), c02::exec),
-        "C03" => go!(format!("rollback_history_d{dim}"), c03::strategy(dim, 8), c03::exec),
-        "C04" => go!(format!("history_d{dim}"), c04::strategy(dim, 8), c04::exec),
-        "C06" => go!(format!("removal_history_d{dim}"), c06::strategy(dim, 10, false), c06::exec),
-        "C07" => go!(format!("flip_history_d{dim}"), c07::strategy(dim, 10), c07::exec),
-        "C08" => go!(format!("repair_history_d{dim}"), c08::strategy(dim, 8), c08::exec),
-        "C09" => go!(format!("duplicate_history_d{dim}"), c09::strategy(dim, 8), c09::exec),
-        "C11" => go!(format!("hull_history_d{dim}"), c11::strategy(dim, 8), c11::exec),
-        "C12" => go!(format!("random_d{dim}"), c12::tuple_strategy(dim), c12::exec),
-        "C15" => go!(format!("query_history_d{dim}"), c15::strategy(dim, 10), c15::exec),
-        "C17" => go!(format!("lists_d{dim}"), c17::list_strategy(dim, 60), c17::exec),
-        "C18" => go!(format!("simplices_d{}", 1 + sel % 5), c18::strategy(1 + sel % 5), c18::exec),
+        "C02" => {
+            let st = start(&mut c, dim, nmax(dim, [12, 10, 8, 8]), true, EXACT_FAMILIES);
+            go!(format!("insertion_history_d{dim}"), c02::Case { dim, robust, salt, start: st, ops: ops(&mut c, dim, 10, 1 | 16, true, false) }, c02::exec)
+        }
+        "C03" => {
+            let st = start(&mut c, dim, nmax(dim, [12, 10, 8, 8]), true, EXACT_FAMILIES);
+            let o = ops(&mut c, dim, 8, 1 | 2 | 4 | 8 | 16, true, false);
+            let inject_at = (0..1 + c.below(3)).map(|_| c.u16()).collect();
+            go!(format!("rollback_history_d{dim}"), c03::Case { dim, robust, salt, start: st, ops: o, inject_at, twin_at: c.below(3) as u8, only: vec![] }, c03::exec)
+        }
+        "C04" => {
+            let st = start(&mut c, dim, nmax(dim, [12, 10, 8, 7]), false, EXACT_FAMILIES);
+            go!(format!("history_d{dim}"), c04::Case { dim, robust, salt, start: st, ops: ops(&mut c, dim, 8, 1 | 2 | 4, false, false) }, c04::exec)
+        }
+        "C06" => {
+            let st = start(&mut c, dim, nmax(dim, [14, 12, 9, 9]), false, EXACT_FAMILIES);
+            let o = ops(&mut c, dim, 10, 1 | 2 | 16, false, false);
+            go!(format!("removal_history_d{dim}"), c06::Case { dim, robust, salt, start: st, ops: o, drain: c.below(4) == 0 }, c06::exec)
+        }
+        "C07" => {
+            let st = start(&mut c, dim, nmax(dim, [10, 9, 7, 7]), false, EXACT_FAMILIES);
+            let o = ops(&mut c, dim, 10, 1 | 4, false, false);
+            go!(format!("flip_history_d{dim}"), c07::Case { dim, robust, salt, start: st, ops: o, exhaustive_handles: c.below(3) < 2 }, c07::exec)
+        }
+        "C09" => {
+            let st = start(&mut c, dim, nmax(dim, [10, 9, 7, 7]), true, EXACT_FAMILIES);
+            let o = ops(&mut c, dim, 8, 1 | 2 | 4 | 8 | 16 | 32, true, false);
+            let probe_sel = (0..1 + c.below(2)).map(|_| c.u16()).collect();
+            go!(format!("duplicate_history_d{dim}"), c09::Case { dim, robust, salt, start: st, ops: o, probe_sel, probe_stats: c.bool(), far: c.below(6) == 0 }, c09::exec)
+        }
+        "C15" => {
+            let st = start(&mut c, dim, nmax(dim, [12, 10, 8, 7]), true, EXACT_FAMILIES);
+            go!(format!("query_history_d{dim}"), c15::Case { dim, robust, salt, start: st, ops: ops(&mut c, dim, 10, 1 | 2 | 4 | 8 | 16 | 32, false, false) }, c15::exec)
+        }
         "C19" => {
-            if sel % 8 == 7 {
-                go!(format!("pb_c01x_d{dim}"), c19::extreme_batch_strategy(dim), c19::exec_c01_monitor)
-            } else {
-                go!(format!("adversarial_history_d{dim}"), c19::strategy(dim, 14), c19::exec)
-            }
+            let st = start(&mut c, dim, nmax(dim, [12, 10, 8, 7]), true, EXACT_FAMILIES);
+            go!(format!("adversarial_history_d{dim}"), c19::Case { dim, robust, salt, start: st, ops: ops(&mut c, dim, 14, 1 | 2 | 4 | 8 | 16 | 32, true, true) }, c19::exec)
         }
         _ => None,
     }
